@@ -25,11 +25,12 @@ func init() {
 }
 
 type c15Scenario struct {
-	Name     string
-	Rows     int  // number of result rows (groups)
-	Append   bool // outfile append
-	Interim  bool // paced stdin, interval 1 => several interim writes before the final one
-	Existing int  // number of earlier complete results already at the outfile path (non-append: 0/1; append: runs before)
+	Name         string
+	Rows         int  // number of result rows (groups)
+	Append       bool // outfile append
+	Interim      bool // paced stdin, interval 1 => several interim writes before the final one
+	Existing     int  // number of earlier complete results already at the outfile path (non-append: 0/1; append: runs before)
+	FinalDelayMs int  // extra delay before the input ends (moves the final write relative to the interim ticks)
 }
 
 func c15Line(g int, v int) string {
@@ -131,6 +132,7 @@ func c15Run(r *vlib.Run, dir string, sc c15Scenario, gen int, points string, wat
 				}
 				time.Sleep(900 * time.Millisecond)
 			}
+			time.Sleep(time.Duration(sc.FinalDelayMs) * time.Millisecond)
 		} else {
 			for _, l := range lines {
 				if _, err := io.WriteString(stdin, l+"\n"); err != nil {
@@ -239,24 +241,78 @@ func c15(r *vlib.Run) int {
 		"runs. distinct = distinct (scenario, kill point); non-trivial = kill point at or after the first write to the outfile.")
 	r.Assume("a kill inside a single write(2) of a few bytes is not separately reachable; in append mode a torn last record is not judged")
 	scs := []c15Scenario{
-		{"final-only-3", 3, false, false, 0},
-		{"final-only-1-over-existing", 1, false, false, 1},
-		{"final-only-200", 200, false, false, 0},
-		{"interim-3-over-existing", 3, false, true, 1},
-		{"interim-200", 200, false, true, 0},
-		{"append-first-3", 3, true, false, 0},
-		{"append-second-3", 3, true, false, 1},
-		{"append-third-interim-3", 3, true, true, 2},
+		{"final-only-3", 3, false, false, 0, 0},
+		{"final-only-1-over-existing", 1, false, false, 1, 0},
+		{"final-only-200", 200, false, false, 0, 0},
+		{"interim-3-over-existing", 3, false, true, 1, 0},
+		{"interim-200", 200, false, true, 0, 0},
+		{"append-first-3", 3, true, false, 0, 0},
+		{"append-second-3", 3, true, false, 1, 0},
+		{"append-third-interim-3", 3, true, true, 2, 0},
 	}
 	if r.Thorough() {
-		scs = append(scs, c15Scenario{"interim-200-over-existing", 200, false, true, 1}, c15Scenario{"append-second-200", 200, true, false, 1},
-			c15Scenario{"final-only-3-over-existing", 3, false, false, 1}, c15Scenario{"append-first-interim-1", 1, true, true, 0})
+		scs = append(scs, c15Scenario{"interim-200-over-existing", 200, false, true, 1, 0}, c15Scenario{"append-second-200", 200, true, false, 1, 0},
+			c15Scenario{"final-only-3-over-existing", 3, false, false, 1, 0}, c15Scenario{"append-first-interim-1", 1, true, true, 0, 0})
 	}
 	maxPoints := r.N(40, 100000)
 	vlib.Parallel(len(scs), 8, func(si int) {
 		c15Scenario1(r, scs[si], maxPoints)
 	})
+	c15Overlap(r)
 	return 10
+}
+
+// c15Overlap: a large result whose final write takes long enough to coincide
+// with a periodic interim report (interval 1). No kill: the outfile observed by
+// the watcher during the run and the outfile left behind must be complete.
+func c15Overlap(r *vlib.Run) {
+	rows := r.N(40000, 120000)
+	delays := []int{0, 250, 500, 750}
+	if r.Thorough() {
+		delays = []int{0, 100, 200, 300, 400, 500, 600, 700, 800, 900}
+	}
+	header, newSet := c15Expected(rows, 0)
+	vlib.Parallel(len(delays), 4, func(i int) {
+		sc := c15Scenario{Name: fmt.Sprintf("overlap-%d", delays[i]), Rows: rows, Interim: true, FinalDelayMs: delays[i]}
+		dir := r.Dir("c15-" + sc.Name)
+		defer os.RemoveAll(dir)
+		out := filepath.Join(dir, "result.csv")
+		var bad int64
+		var once sync.Once
+		watch := func() {
+			content, err := os.ReadFile(out)
+			if err != nil {
+				time.Sleep(time.Millisecond)
+				return
+			}
+			if st, why := c15Classify(content, true, header, nil, newSet); st == "bad" {
+				atomic.AddInt64(&bad, 1)
+				once.Do(func() {
+					r.Violation("watcher-saw-half-written-outfile", map[string]interface{}{"scenario": sc.Name, "why": why, "bytes": len(content)})
+				})
+			}
+			time.Sleep(2 * time.Millisecond)
+		}
+		res, evs := c15Run(r, dir, sc, 0, "", watch, nil)
+		r.Eval("overlap|" + sc.Name)
+		r.Count("overlap_runs", 1)
+		interims := 0
+		for _, e := range evs {
+			if e.Name == "out.opened" {
+				interims++
+			}
+		}
+		r.Max("overlap_max_outfile_writes_in_one_run", interims)
+		if res.TimedOut || res.Exit != 0 {
+			r.Violation("reference-run-failed", map[string]interface{}{"scenario": sc.Name, "exit": res.Exit, "stderr": vlib.Trunc(string(res.Stderr), 1500)})
+			return
+		}
+		content, err := os.ReadFile(out)
+		if st, why := c15Classify(content, err == nil, header, nil, newSet); st != "new" {
+			r.Violation("final-result-incomplete", map[string]interface{}{"scenario": sc.Name, "state": st, "why": why, "bytes": len(content),
+				"nul_bytes": bytes.Count(content, []byte{0})})
+		}
+	})
 }
 
 func c15Prepare(r *vlib.Run, dir string, sc c15Scenario) []byte {
